@@ -363,3 +363,97 @@ def random_program(rng):
     if rng.random() < 0.15:
         e = DO(DEF(0, g.expr("int", 2, [])), VEC(e, GL(0)))
     return e
+
+
+# ---- the first-order + loop fragment of C01L (simulation theorem) ------------------------
+QL = "Verif.C01L.LLisp."
+QS = "Verif.C01.Lisp."
+
+
+def in_l_fragment(e):
+    k = e[0]
+    if k in ("const", "local"):
+        return True
+    if k in ("if", "do"):
+        return all(in_l_fragment(x) for x in e[1:])
+    if k == "let":
+        return in_l_fragment(e[2]) and in_l_fragment(e[3])
+    if k == "prim":
+        return e[1] in ("t", "vec", "conj", "inc", "lt") and all(in_l_fragment(a) for a in e[2])
+    if k == "veclit":
+        return all(in_l_fragment(a) for a in e[1])
+    if k == "loop":
+        return all(in_l_fragment(i) for _, i in e[1]) and in_l_fragment(e[2])
+    if k == "recur":
+        return all(in_l_fragment(a) for a in e[1])
+    return False
+
+
+def _sval(v):
+    if v is None:
+        return QS + "VNil"
+    if v is True:
+        return f"({QS}VBool true)"
+    if v is False:
+        return f"({QS}VBool false)"
+    if isinstance(v, int):
+        return f"({QS}VInt {G.z(v)})"
+    return f"({QS}VVec " + G.lst([_sval(x) for x in v[1:]], QS + "value") + ")"
+
+
+def coq_lexpr(e):
+    k = e[0]
+    L_ = lambda es: G.lst([coq_lexpr(a) for a in es], QL + "lexpr")
+    if k == "const":
+        return f"({QL}LConst {_sval(e[1])})"
+    if k == "local":
+        return f"({QL}LLocal {G.n(e[1])})"
+    if k == "if":
+        return f"({QL}LIf {coq_lexpr(e[1])} {coq_lexpr(e[2])} {coq_lexpr(e[3])})"
+    if k == "do":
+        return f"({QL}LDo {coq_lexpr(e[1])} {coq_lexpr(e[2])})"
+    if k == "let":
+        return f"({QL}LLet {G.n(e[1])} {coq_lexpr(e[2])} {coq_lexpr(e[3])})"
+    if k == "prim":
+        f = {"t": "PTrace", "vec": "PVec", "conj": "PConj", "inc": "PInc", "lt": "PLt"}[e[1]]
+        return f"({QL}LCall {QS}{f} {L_(e[2])})"
+    if k == "veclit":
+        return f"({QL}LCall {QS}PVec {L_(e[1])})"
+    if k == "loop":
+        bs = G.lst([f"({G.n(x)}, {coq_lexpr(i)})" for x, i in e[1]], f"(N * {QL}lexpr)%type")
+        return f"({QL}LLoop {bs} {coq_lexpr(e[2])})"
+    if k == "recur":
+        return f"({QL}LRecur {L_(e[1])})"
+    raise ValueError(k)
+
+
+def loop_programs(rng, n):
+    """programs of the loop fragment: counting loops with traced, nested and compound pieces"""
+    out = []
+    g = Gen(rng)
+
+    def piece(kind, depth, scope):
+        # expressions without fn/try/def
+        for _ in range(30):
+            e = g.expr(kind, depth, scope)
+            if in_l_fragment(e):
+                return e
+        return K(1) if kind == "int" else VEC()
+
+    for _ in range(n):
+        i, acc = rng.choice([I, N_]), rng.choice([ACC, V])
+        bound = rng.randint(1, 3)
+        sc = [(i, "int"), (acc, "vec")]
+        step = P("conj", L(acc), piece("any", 2, sc))
+        res = piece(rng.choice(["any", "vec", "int"]), 2, sc)
+        body = IF(P("lt", L(i), K(bound)), RECUR(P("inc", L(i)), step), res)
+        if rng.random() < 0.3:
+            body = LET(E, T(g.tk()), body)
+        if rng.random() < 0.3:
+            body = DO(T(L(i)), body)
+        e = LOOP([(i, K(0)), (acc, VEC())], body)
+        if rng.random() < 0.4:
+            e = VEC(T(g.tk()), e, piece("any", 1, []))
+        out.append(e)
+    out.append(LOOP([(A_B, K(1)), (XQ, K(2)), (I, K(None))], IF(L(I), VEC(L(A_B), L(XQ)), RECUR(L(XQ), L(A_B), K(7)))))
+    return out
